@@ -64,6 +64,37 @@ def negate(test):
     raise TranslateError("cannot negate the guard %s" % ast.unparse(test)[:60])
 
 
+def transparent_with(st):
+    """`with np.errstate(...):` / `with warnings.catch_warnings():` change no value"""
+    if not isinstance(st, ast.With):
+        return False
+    for it in st.items:
+        c = it.context_expr
+        if it.optional_vars is not None or not isinstance(c, ast.Call) or \
+                not isinstance(c.func, ast.Attribute) or \
+                not isinstance(c.func.value, ast.Name) or \
+                (c.func.value.id, c.func.attr) not in (("np", "errstate"), ("numpy", "errstate"),
+                                                       ("warnings", "catch_warnings")):
+            return False
+    return True
+
+
+def flatten_with(stmts):
+    out = []
+    for st in stmts:
+        if transparent_with(st):
+            out += flatten_with(st.body)
+        elif isinstance(st, ast.Expr) and isinstance(st.value, ast.Call) and \
+                isinstance(st.value.func, ast.Attribute) and \
+                isinstance(st.value.func.value, ast.Name) and \
+                st.value.func.value.id == "warnings" and \
+                st.value.func.attr in ("simplefilter", "filterwarnings"):
+            continue
+        else:
+            out.append(st)
+    return out
+
+
 def is_log_call(v):
     """logging.* / logger.* / warnings.* / print call: no effect on the model"""
     if not isinstance(v, ast.Call):
@@ -74,6 +105,16 @@ def is_log_call(v):
     while isinstance(f, ast.Attribute):
         f = f.value
     return isinstance(f, ast.Name) and f.id in ("logging", "logger", "warnings", "log")
+
+
+def nonreal_name(test):
+    names = set()
+    for n in ast.walk(test):
+        if isinstance(n, ast.Name) and n.id in NONREAL:
+            names.add(n.id)
+        elif isinstance(n, ast.Attribute) and n.attr in NONREAL:
+            names.add(n.attr)
+    return "_".join(sorted(names)) + "_ok"
 
 
 def only_nonreal(test):
@@ -124,6 +165,7 @@ class GridTranslator(pyrx.ClassTranslator):
 
     # nested closures calling earlier nested closures
     def block(self, stmts, env, k):
+        stmts = flatten_with(stmts)
         if stmts and is_guard(stmts[0]):
             # `if cond: raise ...` == `assert not cond` (recorded, no-op on the normal path)
             self.asserts.append("not (%s)" % ast.unparse(stmts[0].test))
@@ -203,6 +245,7 @@ class GridTranslator(pyrx.ClassTranslator):
             env.v[p_] = p_
 
         def walk(stmts, env):
+            stmts = flatten_with(stmts)
             if not stmts:
                 return "(s, true)"
             st, rest = stmts[0], stmts[1:]
@@ -248,10 +291,9 @@ class GridTranslator(pyrx.ClassTranslator):
         if fn is None or name in seen:
             return False
         for n in ast.walk(fn):
-            if isinstance(n, ast.Assert) and not only_nonreal(n.test):
+            if isinstance(n, ast.Assert):
                 return True
-            if isinstance(n, ast.If) and any(isinstance(b, ast.Raise) for b in n.body) and \
-                    not only_nonreal(n.test):
+            if isinstance(n, ast.If) and any(isinstance(b, ast.Raise) for b in n.body):
                 return True
             if isinstance(n, ast.Call):
                 m = self._self_attr(n.func)
@@ -298,6 +340,9 @@ class GridTranslator(pyrx.ClassTranslator):
                     return "(map Fin (%s c))" % a
             if isinstance(n, ast.BinOp) and isinstance(n.op, ast.Add):
                 return "(%s ++ %s)" % (pylist(n.left), pylist(n.right))
+            a = self._self_attr(n)
+            if a in COMPACT + PHYS + JAC:
+                return "(map Fin (%s c))" % a
             raise TranslateError("%s: list expression %s (line %d)" % (
                 name, ast.unparse(n)[:50], n.lineno))
 
@@ -310,10 +355,34 @@ class GridTranslator(pyrx.ClassTranslator):
             if isinstance(n, ast.Call) and isinstance(n.func, ast.Attribute) and \
                     isinstance(n.func.value, ast.Name) and n.func.value.id in ("np", "numpy") \
                     and n.func.attr in ("array", "asarray") and len(n.args) == 1 \
-                    and not n.keywords:
+                    and not n.keywords and isinstance(n.args[0], (ast.List, ast.BinOp)):
                 return pylist(n.args[0])
             if isinstance(n, ast.Tuple):
                 return "(" + ", ".join(arr(x, env) for x in n.elts) + ")"
+            # copies: x.copy(), np.copy(x), np.array(x) of an array expression
+            if isinstance(n, ast.Call) and isinstance(n.func, ast.Attribute) and \
+                    n.func.attr == "copy" and not n.args and not n.keywords and \
+                    not (isinstance(n.func.value, ast.Name) and n.func.value.id in ("np", "numpy")):
+                return arr(n.func.value, env)
+            if isinstance(n, ast.Call) and isinstance(n.func, ast.Attribute) and \
+                    isinstance(n.func.value, ast.Name) and n.func.value.id in ("np", "numpy") \
+                    and n.func.attr in ("copy", "array", "asarray") and len(n.args) == 1 and \
+                    not n.keywords:
+                return arr(n.args[0], env)
+            if isinstance(n, ast.Call) and isinstance(n.func, ast.Attribute) and \
+                    isinstance(n.func.value, ast.Name) and n.func.value.id in ("np", "numpy") \
+                    and n.func.attr == "concatenate" and len(n.args) == 1 and not n.keywords \
+                    and isinstance(n.args[0], (ast.Tuple, ast.List)) and n.args[0].elts:
+                parts = []
+                for x in n.args[0].elts:
+                    try:
+                        parts.append(pylist(x))
+                    except TranslateError:
+                        parts.append(arr(x, env))
+                t = parts[0]
+                for q in parts[1:]:
+                    t = "(%s ++ %s)" % (t, q)
+                return t
             raise TranslateError("%s: array expression %s (line %d)" % (
                 name, ast.unparse(n)[:50], getattr(n, "lineno", 0)))
 
@@ -335,6 +404,7 @@ class GridTranslator(pyrx.ClassTranslator):
             return None
 
         def walk(stmts, env):
+            stmts = flatten_with(stmts)
             if not stmts:
                 raise TranslateError("%s can fall off its end" % name)
             st, rest = stmts[0], stmts[1:]
@@ -397,6 +467,7 @@ class GridTranslator(pyrx.ClassTranslator):
         xmode: with the error exits (assertions, guards, raising callees) in program order;
         the result is (object state at return or at the raise, completed?)."""
         self.xmode = xmode
+        self.cur_bools = []
         fn = self.fn.get(name)
         if fn is None:
             raise TranslateError("method %s not found" % name)
@@ -414,17 +485,19 @@ class GridTranslator(pyrx.ClassTranslator):
             self.svar = "s"
         used = [p for p in params if pyrx._mentions_word(body, p)]
         cn = coq_name or (self.an(name) + ("_x" if xmode else ""))
+        bools = list(self.cur_bools)
         if xmode:
-            self.xops[name] = (cn, used)
+            self.xops[name] = (cn, used, bools)
         else:
             self.ops[name] = used
         self.xmode = False
         self.spans[cn] = (fn.lineno, fn.end_lineno, pyrx._sha(ast.unparse(fn)))
         self.op_notes = getattr(self, "op_notes", {})
         self.op_notes[name] = notes
-        return "Definition %s (e : %senv) (c : cache %sst) %s: cache %sst%s :=\n  %s." % (
+        return "Definition %s (e : %senv) (c : cache %sst) %s%s: cache %sst%s :=\n  %s." % (
             cn, self.prefix, self.prefix,
-            "".join("(%s : R) " % p for p in used), self.prefix,
+            "".join("(%s : R) " % p for p in used),
+            "".join("(%s : bool) " % b for b in bools) if xmode else "", self.prefix,
             " * bool" if xmode else "", body)
 
     def _upd(self, fun):
@@ -477,6 +550,7 @@ class GridTranslator(pyrx.ClassTranslator):
     def _op_block(self, stmts, env, mname, notes, super_init):
         """Coq term of type cache for a statement list (falling off the end returns c)"""
         done = "(c, true)" if self.xmode else "c"
+        stmts = flatten_with(stmts)
         if not stmts:
             return done
         st, rest = stmts[0], stmts[1:]
@@ -486,8 +560,17 @@ class GridTranslator(pyrx.ClassTranslator):
                 raise TranslateError("%s returns a value (line %d)" % (mname, st.lineno))
             return done
         if (isinstance(st, ast.Assert) or is_guard(st)) and only_nonreal(st.test):
-            notes.append("%s (sizes / spacing keyword: not modelled)" % ast.unparse(st.test))
-            return self._op_block(rest, env, mname, notes, super_init)
+            notes.append("%s (sizes / spacing keyword: an opaque bool in the versions with "
+                         "error exits)" % ast.unparse(st.test))
+            tail = self._op_block(rest, env, mname, notes, super_init)
+            if not self.xmode:
+                return tail
+            # the VALUE of the test is not modelled, its POSITION is: what was stored before a
+            # failing check stays stored
+            bn = nonreal_name(st.test)
+            if bn not in self.cur_bools:
+                self.cur_bools.append(bn)
+            return "if %s\n  then (%s)\n  else (c, false)" % (bn, tail)
         if isinstance(st, ast.Assert) or is_guard(st):
             self.asserts.append(ast.unparse(st.test))
             tail = self._op_block(rest, env, mname, notes, super_init)
@@ -514,24 +597,30 @@ class GridTranslator(pyrx.ClassTranslator):
                     and isinstance(f, ast.Attribute) and f.attr == "__init__"
                     and isinstance(f.value, ast.Call) and isinstance(f.value.func, ast.Name)
                     and f.value.func.id == "super" and not f.value.args and not v.keywords):
-                base_fn, _, base_used, xname = super_init
+                base_fn, _, base_used, xname = super_init[:4]
                 bparams = [a.arg for a in base_fn.args.args if a.arg != "self"]
                 if len(v.args) != len(bparams):
                     raise TranslateError("super().__init__ arity (line %d)" % st.lineno)
                 actual = dict(zip(bparams, v.args))
-                args = " ".join(self.expr(actual[q], env) for q in base_used)
+                args = " ".join([self.expr(actual[q], env) for q in base_used] + super_init[4])
+                for b in super_init[4]:
+                    if b not in self.cur_bools:
+                        self.cur_bools.append(b)
                 return ("let %s := %s e c %s in\n  let c := fst %s in\n  "
                         "if snd %s\n  then (%s)\n  else (c, false)" % (
                             r, xname, args, r, r,
                             self._op_block(rest, env, mname, notes, super_init)))
             m = self._self_attr(v.func)
             if m in self.xops and not v.keywords:
-                cn, used = self.xops[m]
+                cn, used, cb = self.xops[m]
                 ps = [a.arg for a in self.fn[m].args.args if a.arg != "self"]
                 if len(v.args) != len(ps):
                     raise TranslateError("%s arity (line %d)" % (m, st.lineno))
                 actual = dict(zip(ps, v.args))
-                args = " ".join(self.expr(actual[q], env) for q in used)
+                args = " ".join([self.expr(actual[q], env) for q in used] + cb)
+                for b in cb:
+                    if b not in self.cur_bools:
+                        self.cur_bools.append(b)
                 return ("let %s := %s e c %s in\n  let c := fst %s in\n  "
                         "if snd %s\n  then (%s)\n  else (c, false)" % (
                             r, cn, args, r, r,
@@ -635,6 +724,17 @@ class GridTranslator(pyrx.ClassTranslator):
                 if isinstance(n, ast.Call) and self._self_attr(n.func) is not None:
                     raise TranslateError("__init__: the spacing block calls %s (line %d)"
                                          % (ast.unparse(n.func), n.lineno))
+                # the nodes may depend on the sizes only: a rescale never recomputes them, and
+                # the theorems compare with a new grid over the SAME nodes
+                if isinstance(n, ast.Attribute) and isinstance(n.ctx, ast.Load) and \
+                        self._self_attr(n) is not None and \
+                        self._self_attr(n) not in NONREAL:
+                    raise TranslateError("__init__: the spacing block reads self.%s (line %d)"
+                                         % (n.attr, n.lineno))
+                if isinstance(n, ast.Name) and isinstance(n.ctx, ast.Load) and \
+                        n.id in env.v and n.id not in NONREAL:
+                    raise TranslateError("__init__: the spacing block reads %s (line %d)"
+                                         % (n.id, n.lineno))
             notes.append("compact grids chiValues/rzValues/rpValues: given lists")
             return []
         raise TranslateError("%s: statement outside the cache-method subset: %s (line %d)"
@@ -676,6 +776,11 @@ def check_module(src, fname, classes):
                 not any(isinstance(m, ast.Name) and m.id in classes for m in ast.walk(n.value)) \
                 and not any(t.id in classes for t in n.targets):
             continue
+        if isinstance(n, ast.FunctionDef) and not n.decorator_list and n.name not in classes \
+                and not any(isinstance(m, ast.Name) and m.id in set(classes) | {"Grid"}
+                            for m in ast.walk(n)):
+            continue        # a helper that cannot touch the classes (calls to it are translated
+            #                 or rejected where they occur)
         raise TranslateError("%s: module-level statement `%s` (line %d)" % (
             fname, ast.unparse(n).splitlines()[0][:60], n.lineno))
     for c in classes:
@@ -700,9 +805,19 @@ def class_fns(src, cls):
     raise TranslateError("class %s not found" % cls)
 
 
-def check_methods(cls, fns, notes):
+def check_methods(cls, fns, notes, clsnode=None):
     """Methods outside the allow-list: rejected when they can change the object (store to an
-    attribute of self, setattr/delattr, __dict__, dunder methods), noted otherwise."""
+    attribute of self, setattr/delattr, __dict__, dunder methods, a call of a mutator also
+    unbound or through super(), any write INTO one of the object's arrays through self, a
+    getter result or a local alias), noted otherwise."""
+    alias_writes = []
+    if clsnode is not None:
+        t = Taint(clsnode, lambda n: (isinstance(n, ast.Name) and n.id == "self")
+                  or is_grid_expr(n))
+        t.solve()
+        alias_writes = t.writes()
+    mutators = [m for m in KNOWN_METHODS[cls]
+                if not m.startswith("get") and m not in POINT_METHODS]
     for nm, f in fns.items():
         if nm in KNOWN_METHODS[cls]:
             continue
@@ -722,13 +837,23 @@ def check_methods(cls, fns, notes):
                 bad = ast.unparse(n)[:40]
             if isinstance(n, ast.Attribute) and n.attr == "__dict__":
                 bad = "__dict__"
-            if isinstance(n, ast.Call) and self_attr_call(n) in KNOWN_METHODS[cls] and \
-                    not self_attr_call(n).startswith("get") and \
-                    self_attr_call(n) not in POINT_METHODS:
+            if isinstance(n, ast.Call) and self_attr_call(n) in mutators:
                 bad = "call of self.%s" % self_attr_call(n)
+            if isinstance(n, ast.Call) and isinstance(n.func, ast.Attribute) and \
+                    n.func.attr in mutators and (
+                        (isinstance(n.func.value, ast.Name) and
+                         n.func.value.id in ("Grid", "Grid3Scales")) or
+                        (isinstance(n.func.value, ast.Call) and
+                         isinstance(n.func.value.func, ast.Name) and
+                         n.func.value.func.id == "super")):
+                bad = "call of %s" % ast.unparse(n.func)
             if bad:
                 raise TranslateError("%s.%s is not a modelled method and changes the object "
                                      "(%s, line %d)" % (cls, nm, bad, n.lineno))
+        for ln, txt in alias_writes:
+            if f.lineno <= ln <= f.end_lineno:
+                raise TranslateError("%s.%s is not a modelled method and writes into the "
+                                     "object (%s, line %d)" % (cls, nm, txt, ln))
         notes.append("%s.%s: not modelled (no store to self)" % (cls, nm))
 
 
@@ -759,8 +884,8 @@ def generate(src_grid, src_g3):
             if isinstance(f, ast.FunctionDef) and f.decorator_list:
                 raise TranslateError("decorated method %s" % f.name)
     mnotes = []
-    check_methods("Grid", gf, mnotes)
-    check_methods("Grid3Scales", g3f, mnotes)
+    check_methods("Grid", gf, mnotes, gcls)
+    check_methods("Grid3Scales", g3f, mnotes, g3cls)
     out = [pyrx.COQ_PRELUDE,
            "From Coq Require Import List.\nImport ListNotations.\n"
            "From WG Require Import Lib.GridMapsCache.",
@@ -797,7 +922,7 @@ def generate(src_grid, src_g3):
         out.append(g.getter_method("getCompactCoordinates",
                                    coq_name="g_getCompactCoordinates_" + d, direction=d))
     info["Grid"] = dict(spans=g.spans, asserts=list(g.asserts), ops=dict(g.ops),
-                        xops={k: v[0] for k, v in g.xops.items()}, notes=g.op_notes)
+                        xops={k: [v[0], v[2]] for k, v in g.xops.items()}, notes=g.op_notes)
 
     # ---------------- Grid3Scales (method resolution: own methods, then Grid's) ----
     fns = dict(gf)
@@ -825,23 +950,22 @@ def generate(src_grid, src_g3):
     t.fn["__init__"] = gf["__init__"]
     out.append(t.op_method("__init__", coq_name="g3_base_init"))
     base_used = t.ops["__init__"]
-    base_x = None
+    base_x, base_bools = None, []
     if t.may_raise("__init__"):
         out.append(t.op_method("__init__", coq_name="g3_base_init_x", xmode=True))
         base_x = "g3_base_init_x"
-        t.xops.pop("__init__")
+        base_bools = t.xops.pop("__init__")[2]
     t.fn["__init__"] = saved
-    out.append(t.op_method("__init__", coq_name="g3_init",
-                           super_init=(gf["__init__"], "g3_base_init", base_used, base_x)))
-    out.append(t.op_method("__init__", coq_name="g3_init_x", xmode=True,
-                           super_init=(gf["__init__"], "g3_base_init", base_used, base_x)))
+    sup = (gf["__init__"], "g3_base_init", base_used, base_x, base_bools)
+    out.append(t.op_method("__init__", coq_name="g3_init", super_init=sup))
+    out.append(t.op_method("__init__", coq_name="g3_init_x", xmode=True, super_init=sup))
     for m in GETTERS:
         out.append(t.getter_method(m))
     for d in ("z", "pz", "pp"):
         out.append(t.getter_method("getCompactCoordinates",
                                    coq_name="g3_getCompactCoordinates_" + d, direction=d))
     info["Grid3Scales"] = dict(spans=t.spans, asserts=list(t.asserts), ops=dict(t.ops),
-                               xops={k: v[0] for k, v in t.xops.items()}, notes=t.op_notes,
+                               xops={k: [v[0], v[2]] for k, v in t.xops.items()}, notes=t.op_notes,
                                inherited=sorted(set(gf) - set(g3f)))
     return "\n".join(out) + "\n", info
 
@@ -857,72 +981,257 @@ INPLACE = {"sort", "fill", "resize", "put", "itemset", "setfield", "partition", 
 GRID_FILES = ("grid.py", "grid3Scales.py")
 
 
+# ---------------------------------------------------------------------------------------
+# alias-aware detection of in-place writes into a grid's arrays
+
+GRID_ARRAYS = COMPACT + PHYS + JAC
+VIEW_METHODS = {"view", "reshape", "ravel", "squeeze", "transpose", "swapaxes", "astype_view"}
+VIEW_FUNCS = {"asarray", "asanyarray", "atleast_1d", "atleast_2d", "squeeze", "reshape", "ravel",
+              "transpose", "swapaxes", "broadcast_to", "expand_dims", "moveaxis"}
+UFUNC1 = {"negative", "abs", "absolute", "fabs", "sqrt", "exp", "log", "sin", "cos", "tan",
+          "tanh", "cosh", "sinh", "arctanh", "square", "reciprocal", "sign", "floor", "ceil",
+          "rint", "nan_to_num", "conjugate", "positive", "cumsum", "cumprod", "around", "round"}
+UFUNC2 = {"add", "subtract", "multiply", "divide", "true_divide", "power", "maximum", "minimum",
+          "mod", "fmod", "hypot", "arctan2", "fmax", "fmin", "floor_divide", "matmul", "dot"}
+WRITE_FUNCS = {"copyto", "put", "place", "putmask", "fill_diagonal", "put_along_axis"}
+
+
+class Taint:
+    """Per function: which local names denote (views of) arrays of a grid object, or the grid
+    object itself; which statements write through them.  `is_grid` says which expressions
+    denote a grid object to start with (by name outside the grid classes, `self` inside)."""
+
+    def __init__(self, tree, is_grid):
+        self.tree = tree
+        self.base_is_grid = is_grid
+        self.funcs = [n for n in ast.walk(tree)
+                      if isinstance(n, (ast.FunctionDef, ast.AsyncFunctionDef))]
+        self.by_name = {}
+        for f in self.funcs:
+            self.by_name.setdefault(f.name, []).append(f)
+        self.arr = {f: set() for f in self.funcs}      # names that are grid arrays / views
+        self.obj = {f: set() for f in self.funcs}      # names that are grid objects
+        self.module_arr, self.module_obj = set(), set()
+
+    def is_grid(self, n, f):
+        if self.base_is_grid(n):
+            return True
+        return isinstance(n, ast.Name) and n.id in (self.obj[f] if f else self.module_obj)
+
+    def is_arr(self, n, f):
+        names = self.arr[f] if f else self.module_arr
+        if isinstance(n, ast.Name):
+            return n.id in names
+        if isinstance(n, ast.Attribute):
+            if n.attr in GRID_ARRAYS and self.is_grid(n.value, f):
+                return True
+            if n.attr in ("T", "real", "flat"):
+                return self.is_arr(n.value, f)
+            return False
+        if isinstance(n, ast.Subscript):
+            return self.is_arr(n.value, f)
+        if isinstance(n, ast.Starred):
+            return self.is_arr(n.value, f)
+        if isinstance(n, (ast.Tuple, ast.List)):
+            return any(self.is_arr(x, f) for x in n.elts)
+        if isinstance(n, ast.IfExp):
+            return self.is_arr(n.body, f) or self.is_arr(n.orelse, f)
+        if isinstance(n, ast.Call):
+            fn = n.func
+            if isinstance(fn, ast.Attribute):
+                if fn.attr.startswith("get") and self.is_grid(fn.value, f):
+                    return True                    # the getters hand out the cached arrays
+                if fn.attr in VIEW_METHODS and self.is_arr(fn.value, f):
+                    return True
+                if isinstance(fn.value, ast.Name) and fn.value.id in ("np", "numpy") and \
+                        fn.attr in VIEW_FUNCS and n.args and self.is_arr(n.args[0], f):
+                    return True
+        return False
+
+    def bind(self, target, value, f):
+        arr = self.arr[f] if f else self.module_arr
+        obj = self.obj[f] if f else self.module_obj
+        ch = False
+        if isinstance(target, ast.Name):
+            if self.is_arr(value, f) and target.id not in arr:
+                arr.add(target.id)
+                ch = True
+            if self.is_grid(value, f) and target.id not in obj and \
+                    not self.base_is_grid(target):
+                obj.add(target.id)
+                ch = True
+        elif isinstance(target, (ast.Tuple, ast.List)):
+            if isinstance(value, (ast.Tuple, ast.List)) and len(value.elts) == len(target.elts):
+                for t, v in zip(target.elts, value.elts):
+                    ch |= self.bind(t, v, f)
+            elif self.is_arr(value, f):
+                for t in target.elts:
+                    t = t.value if isinstance(t, ast.Starred) else t
+                    if isinstance(t, ast.Name) and t.id not in arr:
+                        arr.add(t.id)
+                        ch = True
+        return ch
+
+    def body_nodes(self, f):
+        """nodes of f's own body (nested functions are analysed on their own, but see the
+        enclosing function's names)"""
+        out = []
+        stack = list(f.body) if f else [n for n in self.tree.body]
+        while stack:
+            n = stack.pop()
+            if isinstance(n, (ast.FunctionDef, ast.AsyncFunctionDef, ast.ClassDef)) and f:
+                continue
+            if isinstance(n, (ast.FunctionDef, ast.AsyncFunctionDef)) and not f:
+                continue
+            out.append(n)
+            stack += list(ast.iter_child_nodes(n))
+        return out
+
+    def solve(self):
+        changed, rounds = True, 0
+        while changed and rounds < 8:
+            changed, rounds = False, rounds + 1
+            for f in [None] + self.funcs:
+                for n in self.body_nodes(f):
+                    if isinstance(n, ast.Assign):
+                        for t in n.targets:
+                            changed |= self.bind(t, n.value, f)
+                    elif isinstance(n, ast.AnnAssign) and n.value is not None:
+                        changed |= self.bind(n.target, n.value, f)
+                    elif isinstance(n, ast.NamedExpr):
+                        changed |= self.bind(n.target, n.value, f)
+                    elif isinstance(n, (ast.For, ast.AsyncFor)):
+                        if self.is_arr(n.iter, f):
+                            changed |= self.bind(n.target, n.iter, f)
+                    elif isinstance(n, ast.Call):
+                        changed |= self.pass_args(n, f)
+            # nested functions see the names of the enclosing one
+            for f in self.funcs:
+                for g in ast.walk(f):
+                    if g is not f and g in self.arr:
+                        for nm in self.arr[f] - self.arr[g]:
+                            self.arr[g].add(nm)
+                            changed = True
+                        for nm in self.obj[f] - self.obj[g]:
+                            self.obj[g].add(nm)
+                            changed = True
+
+    def pass_args(self, call, f):
+        fn = call.func
+        name = fn.attr if isinstance(fn, ast.Attribute) else fn.id if isinstance(fn, ast.Name) \
+            else None
+        ch = False
+        for g in self.by_name.get(name, []):
+            ps = [a.arg for a in g.args.posonlyargs + g.args.args]
+            if ps and ps[0] in ("self", "cls") and isinstance(fn, ast.Attribute):
+                ps = ps[1:]
+            pairs = list(zip(ps, call.args)) + [(k.arg, k.value) for k in call.keywords
+                                                if k.arg in ps]
+            for pname, a in pairs:
+                if isinstance(a, ast.Starred):
+                    continue
+                if self.is_arr(a, f) and pname not in self.arr[g]:
+                    self.arr[g].add(pname)
+                    ch = True
+                if self.is_grid(a, f) and pname not in self.obj[g] and \
+                        not self.base_is_grid(ast.Name(id=pname)):
+                    self.obj[g].add(pname)
+                    ch = True
+        return ch
+
+    def writes(self):
+        """[(line, text)] of statements that write through a grid array / to a grid object"""
+        out = []
+        for f in [None] + self.funcs:
+            for n in self.body_nodes(f):
+                tgts = []
+                if isinstance(n, ast.Assign):
+                    tgts = list(n.targets)
+                elif isinstance(n, ast.AugAssign):
+                    if self.is_arr(n.target, f):
+                        out.append((n.lineno, ast.unparse(n)[:70]))
+                    tgts = [n.target]
+                elif isinstance(n, ast.AnnAssign):
+                    tgts = [n.target]
+                elif isinstance(n, ast.Delete):
+                    tgts = list(n.targets)
+                elif isinstance(n, (ast.For, ast.AsyncFor)):
+                    tgts = [n.target]
+                while tgts:
+                    t = tgts.pop()
+                    if isinstance(t, (ast.Tuple, ast.List)):
+                        tgts += list(t.elts)
+                        continue
+                    if isinstance(t, ast.Starred):
+                        tgts.append(t.value)
+                        continue
+                    if isinstance(t, ast.Subscript):
+                        if self.is_arr(t.value, f):
+                            out.append((t.lineno, ast.unparse(t)[:70] + " = ..."))
+                        while isinstance(t, ast.Subscript):
+                            t = t.value
+                    if isinstance(t, ast.Attribute) and self.is_grid(t.value, f):
+                        out.append((t.lineno, ast.unparse(t) + " = ..."))
+                    if isinstance(t, ast.Attribute) and t.attr in ("flat", "real", "T") and \
+                            self.is_arr(t.value, f):
+                        out.append((t.lineno, ast.unparse(t) + " = ..."))
+                if isinstance(n, ast.Call):
+                    fn = n.func
+                    txt = ast.unparse(n)[:70]
+                    if isinstance(fn, ast.Name) and fn.id in ("setattr", "delattr") and n.args \
+                            and self.is_grid(n.args[0], f):
+                        out.append((n.lineno, txt))
+                    if isinstance(fn, ast.Attribute):
+                        if self.is_grid(fn.value, f) and fn.attr.startswith("_"):
+                            out.append((n.lineno, txt))
+                        if fn.attr in INPLACE | {"__setitem__", "__iadd__", "__imul__"} and \
+                                self.is_arr(fn.value, f):
+                            out.append((n.lineno, txt))
+                        if isinstance(fn.value, ast.Name) and fn.value.id in ("np", "numpy"):
+                            k = 1 if fn.attr in UFUNC1 else 2 if fn.attr in UFUNC2 else \
+                                3 if fn.attr == "clip" else None
+                            if k is not None and len(n.args) > k and self.is_arr(n.args[k], f):
+                                out.append((n.lineno, txt))
+                            if fn.attr in WRITE_FUNCS and n.args and self.is_arr(n.args[0], f):
+                                out.append((n.lineno, txt))
+                    for kw in n.keywords:
+                        if kw.arg == "out" and self.is_arr(kw.value, f):
+                            out.append((n.lineno, txt))
+                if isinstance(n, ast.Attribute) and n.attr == "__dict__" and \
+                        self.is_grid(n.value, f):
+                    out.append((n.lineno, ast.unparse(n)))
+        return sorted(set(out))
+
+
 def is_grid_expr(n):
-    """expression that (by its name) denotes a Grid object: grid, self.grid, dummyGrid, ..."""
+    """expression that (by its name) denotes a Grid object or one of the two classes: grid,
+    self.grid, dummyGrid, Grid, Grid3Scales, ..."""
     if isinstance(n, ast.Name):
         ident = n.id
     elif isinstance(n, ast.Attribute):
         ident = n.attr
     else:
         return False
+    if ident in ("Grid", "Grid3Scales"):
+        return True
     low = ident.lower()
     return low.endswith("grid") and not low.startswith("config")
 
 
 def foreign_grid_writes(sources):
-    """[(file, line, text)]: every place outside grid.py / grid3Scales.py that stores to (or
-    deletes) an attribute of a grid object or an element of one of its arrays, calls
-    setattr/delattr on it, calls a non-public method of it, or mutates one of its arrays in
-    place."""
+    """[(file, line, text)]: every place outside grid.py / grid3Scales.py that writes to a grid
+    object or INTO one of its arrays: stores / deletions of attributes (also of the classes
+    Grid, Grid3Scales), element stores, augmented assignments, `out=` (keyword or positional),
+    np.copyto/put/place, in-place array methods, setattr, private-method calls -- through the
+    object, through a local alias of it or of an array (attribute, getter result, view, tuple
+    unpacking), or through a parameter of a same-file function that receives one."""
     out = []
     for fname in sorted(sources):
         if fname in GRID_FILES:
             continue
-        tree = ast.parse(sources[fname])
-        for n in ast.walk(tree):
-            tgts = []
-            if isinstance(n, ast.Assign):
-                tgts = list(n.targets)
-            elif isinstance(n, (ast.AugAssign, ast.AnnAssign)):
-                tgts = [n.target]
-            elif isinstance(n, ast.Delete):
-                tgts = list(n.targets)
-            elif isinstance(n, (ast.For, ast.AsyncFor)):
-                tgts = [n.target]
-            elif isinstance(n, ast.With):
-                tgts = [i.optional_vars for i in n.items if i.optional_vars is not None]
-            while tgts:
-                t = tgts.pop()
-                if isinstance(t, (ast.Tuple, ast.List)):
-                    tgts += list(t.elts)
-                    continue
-                if isinstance(t, ast.Starred):
-                    tgts.append(t.value)
-                    continue
-                while isinstance(t, ast.Subscript):
-                    t = t.value
-                if isinstance(t, ast.Attribute) and is_grid_expr(t.value):
-                    out.append((fname, t.lineno, ast.unparse(t)))
-            if isinstance(n, ast.Call):
-                f = n.func
-                if isinstance(f, ast.Name) and f.id in ("setattr", "delattr") and n.args and \
-                        is_grid_expr(n.args[0]):
-                    out.append((fname, n.lineno, ast.unparse(n)[:60]))
-                if isinstance(f, ast.Attribute) and is_grid_expr(f.value) and \
-                        (f.attr.startswith("_") or f.attr in ("__init__",)) :
-                    out.append((fname, n.lineno, ast.unparse(f)))
-                if isinstance(f, ast.Attribute) and f.attr in INPLACE and \
-                        isinstance(f.value, ast.Attribute) and is_grid_expr(f.value.value):
-                    out.append((fname, n.lineno, ast.unparse(f)))
-                for kw in n.keywords:
-                    if kw.arg == "out":
-                        v = kw.value
-                        while isinstance(v, ast.Subscript):
-                            v = v.value
-                        if isinstance(v, ast.Attribute) and is_grid_expr(v.value):
-                            out.append((fname, n.lineno, "out=" + ast.unparse(kw.value)))
-            if isinstance(n, ast.Attribute) and n.attr == "__dict__" and is_grid_expr(n.value):
-                out.append((fname, n.lineno, ast.unparse(n)))
+        t = Taint(ast.parse(sources[fname]), is_grid_expr)
+        t.solve()
+        out += [(fname, ln, txt) for ln, txt in t.writes()]
     return out
 
 
@@ -957,12 +1266,8 @@ def call_site(src, cls, method, callee, externals, opaque_ok, result_names, pref
                                      "statement (line %d)" % (cls, method, st.lineno))
             call = calls[0]
             continue
-        if is_guard(st):
-            touched = [n for n in ast.walk(st.test) if isinstance(n, ast.Name) and
-                       n.id in env.v and n.id not in opaque]
-            if touched:
-                raise TranslateError("%s.%s: guard on a modelled quantity (line %d)" % (
-                    cls, method, st.lineno))
+        if isinstance(st, ast.Assert) or is_guard(st):
+            # an assertion / guard before the call only restricts when the call happens
             continue
         if isinstance(st, ast.Assign) and len(st.targets) == 1 and \
                 isinstance(st.targets[0], ast.Name):
